@@ -38,6 +38,9 @@ import (
 	"github.com/btcsuite/btcd/btcec"
 
 	"github.com/hyperledger/aries-framework-go/component/kmscrypto/doc/jose"
+	"github.com/hyperledger/aries-framework-go/component/kmscrypto/doc/util/fingerprint"
+	"github.com/hyperledger/aries-framework-go/component/models/verifiable"
+	vdrkey "github.com/hyperledger/aries-framework-go/component/vdr/key"
 	"github.com/hyperledger/aries-framework-go/component/kmscrypto/doc/jose/jwk/jwksupport"
 	"github.com/hyperledger/aries-framework-go/component/models/did"
 	"github.com/hyperledger/aries-framework-go/component/models/jwt"
@@ -192,6 +195,9 @@ func (c08Resolver) Resolve(id string, _ ...vdrspi.DIDMethodOption) (*did.DocReso
 	if id == c08DID2 {
 		return &did.DocResolution{DIDDocument: c08Doc2}, nil
 	}
+	if strings.HasPrefix(id, "did:key:") {
+		return vdrkey.New().Read(id)
+	}
 	return nil, fmt.Errorf("did not found: %s", id)
 }
 
@@ -260,6 +266,8 @@ func c08Claims(kind string) []byte {
 		return []byte(`{"iss":"did:test:iss","sub":"did:test:sub","vc":{"type":["VerifiableCredential"],"credentialSubject":{"id":"x","n":[1,2,{"a":null}]}},"nbf":1600000000}`)
 	case "txt":
 		return []byte("not json at all")
+	case "vc":
+		return []byte(`{"iss":"did:test:iss","sub":"did:example:subject","jti":"http://example.edu/credentials/c08","nbf":1577906604,"vc":{"@context":["https://www.w3.org/2018/credentials/v1"],"type":["VerifiableCredential"],"credentialSubject":{"id":"did:example:subject"}}}`)
 	case "l1":
 		return []byte(`{"iss":"did:test:iss","x":"a"}`)
 	case "l2":
@@ -313,8 +321,35 @@ func c08Run(input string) string {
 		hdr["kid"] = strings.ReplaceAll(strings.Join(mf[1:], ":"), "~", "#")
 	case "did2":
 		hdr["kid"] = c08DID2 + "#" + vm
+	case "jwkhdr":
+		// no kid: the token brings the key that signed it along in its own header
+		sk := c08Keys[strings.Split(proc, ":")[0]]
+		if sk == nil {
+			return "bad-input"
+		}
+		j, err := jwksupport.JWKFromKey(sk.pub)
+		if err != nil {
+			return "bad-input"
+		}
+		jb, _ := j.MarshalJSON()
+		delete(hdr, "kid")
+		if len(mf) > 1 && mf[1] == "emptykid" {
+			hdr["kid"] = ""
+		}
+		hdr["jwk"] = json.RawMessage(jb)
+	case "didkey":
+		// kid = did:key:<fingerprint of ed-a>#<fingerprint of ed-a (own) | of the signing key (cross)>
+		own := c08Fingerprint("ed-a")
+		frag := own
+		if len(mf) > 1 && mf[1] == "cross" {
+			frag = c08Fingerprint(strings.Split(proc, ":")[0])
+		}
+		hdr["kid"] = "did:key:" + own + "#" + frag
 	}
 	payload := c08Claims(claims)
+	if mf[0] == "didkey" && claims == "vc" {
+		payload = []byte(strings.ReplaceAll(string(payload), c08DID, "did:key:"+c08Fingerprint("ed-a")))
+	}
 	hb, _ := json.Marshal(hdr)
 	H := base64.RawURLEncoding.EncodeToString(hb)
 	P := base64.RawURLEncoding.EncodeToString(payload)
@@ -340,7 +375,7 @@ func c08Run(input string) string {
 	parts := map[string]*string{"H": &H, "P": &P, "S": &S}
 	applied := true
 	switch mf[0] {
-	case "none", "kidraw", "did2":
+	case "none", "kidraw", "did2", "jwkhdr", "didkey":
 	case "flip", "nl":
 		p := parts[mf[1]]
 		var pm int
@@ -439,6 +474,24 @@ func c08Run(input string) string {
 			return "bad-input"
 		}
 		err = didsignjwt.VerifyJWT(tok, c08Resolver{})
+	case "vc", "vcn":
+		// a JWT credential through verifiable.ParseCredential with a key fetcher (proof check on); vcn: validation disabled
+		if det != nil {
+			return "bad-input"
+		}
+		if c07E == nil {
+			c07Setup()
+		}
+		opts := []verifiable.CredentialOpt{verifiable.WithJSONLDDocumentLoader(c07E.loader),
+			verifiable.WithPublicKeyFetcher(verifiable.NewVDRKeyResolver(c08Resolver{}).PublicKeyFetcher())}
+		if entry == "vcn" {
+			opts = append(opts, verifiable.WithCredDisableValidation())
+		}
+		var v *verifiable.Credential
+		v, err = verifiable.ParseCredential([]byte(tok), opts...)
+		if err == nil && v.JWT == "" {
+			err = fmt.Errorf("parsed as a credential without any proof")
+		}
 	case "pk":
 		v := c08VMs[vm]
 		if v == nil {
@@ -471,7 +524,20 @@ func c08Run(input string) string {
 	if !applied {
 		ap = " mut=na"
 	}
-	return fmt.Sprintf("tok=%s det=%s rec=%s%s res=%s", strings.ReplaceAll(tok, "\n", "\\n"), d, rec, ap, res)
+	dk := ""
+	if mf[0] == "didkey" {
+		dk = " dk=ed-a:" + c08Fingerprint("ed-a") + ",ed-b:" + c08Fingerprint("ed-b")
+	}
+	return fmt.Sprintf("tok=%s det=%s rec=%s%s%s res=%s", strings.ReplaceAll(tok, "\n", "\\n"), d, rec, ap, dk, res)
+}
+
+// did:key fingerprint (z6Mk...) of an Ed25519 key of the harness
+func c08Fingerprint(name string) string {
+	k := c08Keys[name]
+	if k == nil || k.typ != "ed" {
+		return "z6MkNOTANEDKEY"
+	}
+	return fingerprint.KeyFingerprint(0xed, k.raw)
 }
 
 var c08Algs = []string{"EdDSA", "ES256", "ES384", "ES521", "ES256K", "PS256", "RS256"}
@@ -604,6 +670,51 @@ func c08Gen(r *Rng, tier string) []string {
 			entry = "jws" // jwt.GetVerifier is for JWK public keys only
 		}
 		out = append(out, strings.Join([]string{"tok", entry, alg, vm, proc, r.Pick(claims), form, mut}, "|"))
+	}
+	// the key brought along in the header, did:key key ids, and JWT credentials through verifiable.ParseCredential
+	for i := 0; i < n/6; i++ {
+		alg := r.Pick([]string{"EdDSA", "EdDSA", "ES256", "ES384", "ES521", "ES256K"})
+		typ, hash, enc := c08Honest(alg)
+		vm := typ + "-" + r.Pick([]string{"raw", "jwk"}) + "-a"
+		proc := typ + "-a:" + hash + ":" + enc
+		entry := r.Pick([]string{"jws", "jwt", "did", "vc", "vcn"})
+		cl := r.Pick(claims)
+		if entry == "vc" || entry == "vcn" {
+			cl = "vc"
+		}
+		mut := "none"
+		switch x := r.N(12); {
+		case x < 3:
+			mut = r.Pick([]string{"jwkhdr", "jwkhdr", "jwkhdr:emptykid"})
+			proc = typ + "-" + r.Pick([]string{"a", "b"}) + ":" + hash + ":" + enc
+		case x < 6:
+			alg, typ = "EdDSA", "ed"
+			vm = "ed-raw-a"
+			proc = "ed-" + r.Pick([]string{"a", "b"}) + ":-:-"
+			mut = r.Pick([]string{"didkey:own", "didkey:cross", "didkey:cross"})
+		default:
+			entry = r.Pick([]string{"vc", "vcn", "vcn"})
+			cl = "vc"
+			switch y := r.N(10); {
+			case y < 2:
+			case y < 4:
+				mut = fmt.Sprintf("flip:%s:%d", r.Pick(partsL), r.N(1001))
+			case y < 5:
+				mut = fmt.Sprintf("nl:%s:%d", r.Pick(partsL), r.N(1001))
+			case y < 6:
+				mut = "last:" + r.Pick(partsL)
+			case y < 7:
+				proc = "none"
+				if r.Bool() {
+					alg = "none"
+				}
+			case y < 9:
+				proc = typ + "-b:" + hash + ":" + enc
+			default:
+				mut = r.Pick([]string{"nosig", "did2", "kid:" + typ + "-raw-b", "ext:char", "ext:1"})
+			}
+		}
+		out = append(out, strings.Join([]string{"tok", entry, alg, vm, proc, cl, "att", mut}, "|"))
 	}
 	return out
 }
